@@ -576,6 +576,12 @@ fn history(r: &mut Report, args: &Args, idx: u64, seed: u64) {
         let label = m.label(&strip);
         let cut_dir = cuts.join(format!("cut{}", m.n));
         if !cut_dir.exists() { continue }
+        // quick tier: the cuts of one operation may not take more than
+        // about twice the shard's budget (all of them in the thorough tier)
+        if !args.thorough() && r.elapsed_s() > (args.budget_s * 2) as f64 {
+            r.count("cuts_left_out_for_time", 1);
+            continue
+        }
         r.distinct("cut_labels", label.clone());
         r.nontrivial(format!("cut|{:?}|{label}", (ret.min_nr, ret.max_nr, ret.archive)));
         // (a) a client fetching at this very instant
